@@ -94,6 +94,15 @@ def rule_templates():
         add(F2, expr=e)
     for e in ("a < b || a > b", "!(a < b)", "a+1 > b", "a > 0 && a <= 1"):
         add([("a", "Fl"), ("b", "Fl")], expr=e)
+    # boolean expressions nested in function literals inside boolean expressions
+    for e in ("!okf(func() bool { return !(p < q) })", "okf(func() bool { return !(p == q) }) && true", "!okf(func() bool { return p+1 > q })",
+              "!okf(func() bool { return !okf(func() bool { return !(p <= q) }) })"):
+        add(F2, expr=e)
+    add(I2, expr="!okf(func() bool { return !(x < y) })")
+    # stringsCompare with the constant on the left
+    for e in ("0 == strings.Compare(s, t)", "0 < strings.Compare(s, t)", "0 > strings.Compare(s, t)", "-1 == strings.Compare(s, t)", "1 == strings.Compare(s, t)",
+              "0 != strings.Compare(s, t)", "0 <= strings.Compare(s, t)", "strings.Compare(s, t) >= 0", "strings.Compare(s, t) <= 0"):
+        add(S2, expr=e)
     # emptyStringTest / sloppyLen
     for e in ("len(s) == 0", "len(s) != 0", "len(s) > 0", "len(s) >= 1", "len(s) < 1", "len(s) <= 0", "len(gs()) == 0", "len(s+t) == 0"):
         add(S2, expr=e)
